@@ -48,6 +48,20 @@ STRUCTS = {
         "chains": {"bc": [_d("A", "R_BC", "D"), _d("R_BC", "B", "C")], "bd": [_d("A", "R_BD", "C"), _d("R_BD", "B", "D")],
                    "cd": [_d("A", "R_CD", "B"), _d("R_CD", "C", "D")]},
     },
+    # (1; 1,1,0) with FOUR chains whose declaration order INTERLEAVES topologies: (BC)D, (BD)C, (BC)D, (CD)B.  Two resonances share the
+    # (BC)D topology and are separated by one of another topology, so "position in the chain list", "position in the current selection"
+    # and "position inside the topology group" are three different numbers for chains 1 and 2.  All resonances are 1+, so every chain has
+    # the same number (6) of LS-coupling products: a strategy that pairs per-chain tensors of two different chains gets matching shapes
+    # and a wrong number instead of an exception.  No identical particles.
+    "s110x": {
+        "top": ("A", {"J": 1, "P": -1, "mass": 4.6}),
+        "finals": [("B", {"J": 1, "P": -1, "mass": 2.00698}), ("C", {"J": 1, "P": -1, "mass": 2.01028}), ("D", {"J": 0, "P": -1, "mass": 0.13957})],
+        "res": {"R_BC": {"J": 1, "P": 1, "m0": 4.16, "g0": 0.1}, "R_BD": {"J": 1, "P": 1, "m0": 2.43, "g0": 0.3},
+                "R_BC2": {"J": 1, "P": 1, "m0": 4.3, "g0": 0.15}, "R_CD": {"J": 1, "P": 1, "m0": 2.42, "g0": 0.03}},
+        "chains": {"bc": [_d("A", "R_BC", "D"), _d("R_BC", "B", "C")], "bd": [_d("A", "R_BD", "C"), _d("R_BD", "B", "D")],
+                   "bc2": [_d("A", "R_BC2", "D"), _d("R_BC2", "B", "C")], "cd": [_d("A", "R_CD", "B"), _d("R_CD", "C", "D")]},
+        "topology": {"bc": "(BC)D", "bd": "(BD)C", "bc2": "(BC)D", "cd": "(CD)B"},
+    },
     # (1/2; 1/2,0,0)
     "sh00": {
         "top": ("A", {"J": 0.5, "P": 1, "mass": 5.62}),
